@@ -121,7 +121,7 @@ def nontrivial(node):
     return len(kinds) >= 2
 
 
-def evaluate_against_oracle(node, f, stt, what, require_complete=False, nreal=3):
+def evaluate_against_oracle(node, f, stt, what, require_complete=False, nreal=3, nonneg_reals=False):
     """Compare funsor `f` with the oracle value of `node` on the whole input space.
     Returns (table_constant: bool).  Raises Violation / Decline."""
     from vf.build import eval_at, funsor_type
@@ -139,7 +139,7 @@ def evaluate_against_oracle(node, f, stt, what, require_complete=False, nreal=3)
     orc = Oracle()
     first = None
     constant = True
-    for rp in real_points(inputs, nreal):
+    for rp in real_points(inputs, nreal, nonneg=nonneg_reals):
         for ip in int_points(inputs):
             pt = dict(ip)
             pt.update(rp)
